@@ -202,7 +202,10 @@ pub fn catch<T>(f: impl FnOnce() -> T) -> Caught<T> {
 }
 
 pub fn silence_panics() {
-    std::panic::set_hook(Box::new(|_| {}));
+    // LZVERIF_DEBUG keeps the default hook (a panic of the harness itself is then visible with its location)
+    if std::env::var("LZVERIF_DEBUG").is_err() {
+        std::panic::set_hook(Box::new(|_| {}));
+    }
 }
 
 // ---------------------------------------------------------------- counting allocator
